@@ -21,6 +21,8 @@ pub struct PassState {
     pub max_passes: usize,
     /// most tokens emitted in one completed pass
     pub max_work: u64,
+    /// most parse attempts per byte (x1000) in any file
+    pub max_parse_ratio: u64,
     /// Some("periodic(p)") / Some("divergent") once a verdict was reached
     pub verdict: Option<String>,
 }
@@ -54,7 +56,22 @@ fn periodic(d: &[u64]) -> Option<usize> {
 pub const WORK_BUDGET: u64 = 1_000_000;
 pub const WORK_BUDGET_MARKER: &str = "VERIF-WORK-BUDGET";
 
+/// Logical clock of the parser: attempts to parse a statement or an expression factor, per file. A parser that
+/// is linear in the size of its input makes a bounded number of attempts per byte (`max_parse_attempts_per_byte`
+/// in the C06 evidence is the largest ratio any workload file reached); one that backtracks exponentially in
+/// the nesting depth passes any such bound at a depth of two dozen. Budget per file:
+/// PARSE_BUDGET_BASE + PARSE_BUDGET_PER_BYTE * length.
+pub const PARSE_BUDGET_BASE: u64 = 200_000;
+pub const PARSE_BUDGET_PER_BYTE: u64 = 2_000;
+pub const PARSE_BUDGET_MARKER: &str = "VERIF-PARSE-BUDGET";
+
 pub fn install() {
+    if std::env::var("VERIF_PARSE_BUDGET").ok().as_deref() == Some("off") {
+        mos_core::parser::verif_hooks::set_parse_budget(0, 0);
+    } else {
+        mos_core::parser::verif_hooks::set_parse_budget(PARSE_BUDGET_BASE, PARSE_BUDGET_PER_BYTE);
+    }
+    let _ = mos_core::parser::verif_hooks::take_max_ratio();
     verif_hooks::set_work_budget(
         std::env::var("VERIF_WORK_BUDGET")
             .ok()
@@ -97,10 +114,14 @@ pub fn install() {
 pub fn uninstall() -> PassState {
     verif_hooks::set_observer(None);
     verif_hooks::set_work_budget(0);
-    STATE
+    mos_core::parser::verif_hooks::set_parse_budget(0, 0);
+    let ratio = mos_core::parser::verif_hooks::take_max_ratio();
+    let mut st = STATE
         .with(|s| s.borrow_mut().take())
         .map(|rc| rc.borrow().clone())
-        .unwrap_or_default()
+        .unwrap_or_default();
+    st.max_parse_ratio = ratio;
+    st
 }
 
 /// Returns (and clears) a non-termination verdict reached since the last call.
